@@ -69,6 +69,26 @@ sig = module(defs=[
     impls=[impl('A', [], [af('g', 4096, args=(SELF, arg('p', ty_cptr(ty_id('BVftable')))))])])
 W['C09/sig'] = one(sig, 'generated-vftable-in-signature', prio=[path('m', 'A'), path('m', 'B')])
 
+# --- C13: accepted by pyxis, rejected by rustc (open findings); ps 8 so that the host compiler can be used
+W['C13/static_forwarder'] = one(module(defs=[
+    T('Base', [], [F('a', u32)]),
+    T('Derived', [], [F('b', ty_id('Base'), [a_ident('base')])])],
+    impls=[impl('Base', [], [fn(True, 'create', [a_int('address', 4096)], [arg('n', u32)], ty_mptr(ty_id('Base')))])]), 'static-forwarder', ps=8)
+W['C13/rename_clash'] = one(module(defs=[
+    T('A', [], [F('x', u32)]), T('B', [], [F('y', u32)]),
+    T('D', [], [F('a', ty_id('A'), [a_ident('base')]), F('b', ty_id('B'), [a_ident('base')])])],
+    impls=[impl('A', [], [af('run', 4096), af('b_run', 4100)]), impl('B', [], [af('run', 8192)])]), 'rename-clash', ps=8)
+W['C13/packed_aligned'] = one(module(defs=[
+    T('Inner', [], [F('x', u32)]),
+    T('Outer', [a_ident('packed')], [F('i', ty_id('Inner')), F('c', u8)])]), 'packed-contains-aligned', ps=8)
+W['C13/singleton_enum'] = one(module(defs=[enum_def(True, 'E', u32, [a_int('singleton', 4096)], [enum_stmt('A')])]), 'singleton-noncopy-enum', ps=8)
+W['C13/empty_enum'] = one(module(defs=[enum_def(True, 'E', u32, [], [])]), 'zero-variant-enum', ps=8)
+W['C13/dup_discr'] = one(module(defs=[enum_def(True, 'E', u32, [], [enum_stmt('A', e_int(1)), enum_stmt('B', e_int(1))])]), 'duplicate-discriminant', ps=8)
+W['C13/dup_field'] = one(module(defs=[T('T', [], [F('a', u32), F('a', u32)])]), 'duplicate-field', ps=8)
+W['C13/void_by_value'] = one(module(defs=[T('T', [a_int('align', 1)], [F('v', ty_id('void')), F('a', u8)])]), 'void-by-value', ps=8)
+
+W['C13/vfunc_static'] = one(module(defs=[T('T', [], [vftable([], [fn(True, 'count', [], [], u32)])])]), 'vfunc-without-receiver', ps=8)
+
 for key, c in W.items():
     d, name = key.split('/')
     os.makedirs(os.path.join(VERIF, 'corpus', d), exist_ok=True)
